@@ -40,8 +40,13 @@ def judge_input(ws, data, part, fault, acc, order, readonly=False):
     """One malformed (or not) input through the real decoder."""
     cls = ws.cls
     acc.add("evaluations")
-    src = streams.ReadOnlySource(data) if readonly else io.BytesIO(data)
+    src = streams.ReadOnlySource(data) if readonly else streams.CountingBytesIO(data)
     res, val = decode_with(cls, src, len(data))
+    if not readonly and src.returned > len(data):
+        acc.report(violation("C10", part, f"C10/{part}/obtained-more-bytes-than-the-input-holds", ws.path,
+                             {"class": ws.path, "input": data, "fault": fault}, f"at most {len(data)} bytes obtained from the source",
+                             f"{src.returned} bytes obtained in {src.nreads} reads (re-reading / reading ahead)", order))
+        return
     case = {"class": ws.path, "input": data, "fault": fault}
     if readonly and src.negative_reads:
         acc.add("negative_read_calls_observed")
